@@ -260,16 +260,12 @@ impl Read for SReader<'_> {
                 if scripted && self.ladder {
                     // counted once per script whose deliveries were honoured as written: a clipped delivery, or a
                     // HALF/ALL that coincides with a smaller menu entry, duplicates the script with that entry
-                    let sym = self.script[self.cur - 1];
-                    if n == 0 || n != k {
-                        if sym != Step::Deliver(ALL) || n == 0 {
-                            self.canonical = false;
-                        }
-                    }
-                    if sym == Step::Deliver(HALF) && self.menu.contains(&n) {
-                        self.canonical = false;
-                    }
-                    if sym == Step::Deliver(ALL) && (self.menu.contains(&n) || n == half) {
+                    let dup = match self.script[self.cur - 1] {
+                        Step::Deliver(ALL) => n == 0 || self.menu.contains(&n) || n == half,
+                        Step::Deliver(HALF) => n != half || self.menu.contains(&n),
+                        _ => n != k,
+                    };
+                    if dup {
                         self.canonical = false;
                     }
                 } else if scripted {
@@ -813,6 +809,131 @@ fn fmt_cases() -> Vec<FmtCase> {
     ]
 }
 
+// ---- size ladder: formatted pieces of chosen lengths
+
+/// reference sink: what `core::fmt` itself hands to a `fmt::Write`, piece by piece
+#[derive(Default)]
+struct Pieces {
+    out: String,
+    nonempty: usize,
+}
+impl core::fmt::Write for Pieces {
+    fn write_str(&mut self, s: &str) -> core::fmt::Result {
+        if !s.is_empty() {
+            self.nonempty += 1;
+        }
+        self.out.push_str(s);
+        Ok(())
+    }
+}
+
+enum Sink<'a, 'b> {
+    Tiny(&'a mut SWriter<'b>),
+    Std(&'a mut Pieces),
+}
+
+macro_rules! emit {
+    ($sink:expr, $($t:tt)*) => {
+        match $sink {
+            Sink::Tiny(w) => w.write_fmt(format_args!($($t)*)),
+            Sink::Std(p) => {
+                let _ = core::fmt::Write::write_fmt(p, format_args!($($t)*));
+                Ok(())
+            }
+        }
+    };
+}
+
+/// a 130-byte literal piece (larger than any small staging buffer)
+macro_rules! long130 {
+    () => {
+        "0123456789012345678901234567890123456789012345678901234567890123456789012345678901234567890123456789012345678901234567890123456789"
+    };
+}
+
+/// piece `i` of length `len`: its own 6-letter window of the alphabet, so that pieces cannot be mistaken for each other
+fn piece(i: usize, len: usize) -> String {
+    (0..len).map(|j| (b'A' + 6 * i as u8 + (j % 6) as u8) as char).collect()
+}
+
+const N_SHAPES: usize = 3;
+/// literal pieces of shape `shape` with `n` arguments (None: shape not defined for that n)
+fn shape_literals(shape: usize, n: usize) -> Option<usize> {
+    match (shape, n) {
+        (0, 1..=4) => Some(0),
+        (1, 1..=4) => Some(n),
+        (2, 1..=2) => Some(1),
+        _ => None,
+    }
+}
+
+/// Format the pieces `p` with shape 0: "{}{}.." (arguments only), 1: "a={} b={}.." (a short literal before each
+/// argument), 2: "{}<130-byte literal>" / "{}<130-byte literal>{}".  The arguments go through `black_box`, so each
+/// stays a fragment of its own.
+fn ladder_fmt(shape: usize, p: &[&str], sink: Sink<'_, '_>) -> tiny_std::Result<()> {
+    match (shape, p.len()) {
+        (0, 1) => emit!(sink, "{}", bb(p[0])),
+        (0, 2) => emit!(sink, "{}{}", bb(p[0]), bb(p[1])),
+        (0, 3) => emit!(sink, "{}{}{}", bb(p[0]), bb(p[1]), bb(p[2])),
+        (0, 4) => emit!(sink, "{}{}{}{}", bb(p[0]), bb(p[1]), bb(p[2]), bb(p[3])),
+        (1, 1) => emit!(sink, "a={}", bb(p[0])),
+        (1, 2) => emit!(sink, "a={} b={}", bb(p[0]), bb(p[1])),
+        (1, 3) => emit!(sink, "a={} b={} c={}", bb(p[0]), bb(p[1]), bb(p[2])),
+        (1, 4) => emit!(sink, "a={} b={} c={} d={}", bb(p[0]), bb(p[1]), bb(p[2]), bb(p[3])),
+        (2, 1) => emit!(sink, concat!("{}", long130!()), bb(p[0])),
+        (2, 2) => emit!(sink, concat!("{}", long130!(), "{}"), bb(p[0]), bb(p[1])),
+        _ => panic!("undefined format shape {shape} for {} pieces", p.len()),
+    }
+}
+
+/// One (shape, piece lengths) point of the write_fmt ladder through every writer script of length <= `l`.
+fn run_fmt_ladder_point(r: &mut Report, shape: usize, lens: &[usize], l: usize, max_frags: &mut usize) {
+    let strs: Vec<String> = lens.iter().enumerate().map(|(i, &n)| piece(i, n)).collect();
+    let p: Vec<&str> = strs.iter().map(|s| s.as_str()).collect();
+    let mut reference = Pieces::default();
+    let _ = ladder_fmt(shape, &p, Sink::Std(&mut reference));
+    let expect_frags = lens.iter().filter(|&&n| n > 0).count() + shape_literals(shape, lens.len()).unwrap_or(0);
+    if reference.nonempty != expect_frags {
+        r.cap(format!("write_fmt ladder: shape {shape} pieces {lens:?} reached fmt::Write as {} fragments, {expect_frags} intended", reference.nonempty));
+    }
+    *max_frags = (*max_frags).max(reference.nonempty);
+    let payload = reference.out.as_bytes();
+    let prefix = case_prefix(json!({"op":"write_fmt","ladder":true,"shape":shape,"pieces":lens}));
+    let mut cs = String::new();
+    let mut steps: Vec<Step> = Vec::new();
+    for_each_seq(N_LWSYM, l, |idx| {
+        steps.clear();
+        steps.extend(idx.iter().map(|&i| lwsym(i)));
+        case_string(&mut cs, &prefix, &steps, true);
+        set_case(&cs);
+        run_write(r, "write_fmt", &cs, payload, &steps, &LWMENU, &|w| ladder_fmt(shape, &p, Sink::Tiny(w)), false);
+        clear_case();
+    });
+}
+
+/// deterministic, aperiodic-looking bytes for the large payloads
+fn ladder_payload(n: usize) -> Vec<u8> {
+    (0..n).map(|i| ((i as u64 + 1).wrapping_mul(0x9E37_79B9_7F4A_7C15) >> 56) as u8).collect()
+}
+
+/// `n` bytes of multi-byte text: units "<letter>\u{e9}\u{20ac}\u{1f600}" with a rotating letter, then digits
+fn ladder_text(n: usize) -> String {
+    let mut s = String::with_capacity(n);
+    for k in 0..n / 10 {
+        s.push((b'a' + (k % 26) as u8) as char);
+        s.push_str(&UNIT[1..]);
+    }
+    for j in 0..n % 10 {
+        s.push((b'0' + j as u8) as char);
+    }
+    assert_eq!(s.len(), n);
+    s
+}
+
+fn ladder_lens() -> Vec<usize> {
+    dedup_sorted(LADDER.iter().chain(LADDER_EXTRA_LENS.iter()).copied().collect())
+}
+
 /// `call` runs the helper on the writer; `payload` is what must arrive.
 #[allow(clippy::too_many_arguments)]
 fn run_write(
@@ -1009,6 +1130,12 @@ struct Bounds {
     l_rts_invalid: usize,
     l_write: usize,
     cuts_long: usize,
+    /// size ladder: script length for read_to_end / read_exact, for read_to_string, number of formatted pieces,
+    /// writer script length
+    lad_read: usize,
+    lad_rts: usize,
+    lad_pieces: usize,
+    lad_write: usize,
 }
 
 const RTE_LENS: [usize; 8] = [0, 1, 31, 32, 33, 64, 65, 100];
@@ -1017,9 +1144,9 @@ const WA_LENS: [usize; 5] = [0, 1, 2, 5, 33];
 
 fn c15(args: &Args) -> Report {
     let b = if args.thorough {
-        Bounds { l_read: 7, l_rts: 5, l_rts_invalid: 3, l_write: 9, cuts_long: 3 }
+        Bounds { l_read: 7, l_rts: 5, l_rts_invalid: 3, l_write: 9, cuts_long: 3, lad_read: 5, lad_rts: 4, lad_pieces: 4, lad_write: 3 }
     } else {
-        Bounds { l_read: 6, l_rts: 4, l_rts_invalid: 2, l_write: 7, cuts_long: 2 }
+        Bounds { l_read: 6, l_rts: 4, l_rts_invalid: 2, l_write: 7, cuts_long: 2, lad_read: 4, lad_rts: 3, lad_pieces: 3, lad_write: 3 }
     };
     let mut items: Vec<Isolated> = Vec::new();
 
@@ -1039,7 +1166,7 @@ fn c15(args: &Args) -> Report {
                     steps.extend(idx.iter().map(|&i| rsym(i)));
                     case_string(&mut cs, &prefix, &steps, false);
                     set_case(&cs);
-                    run_rte(&mut r, &cs, &payload, &steps, len0, cap0, false);
+                    run_rte(&mut r, &cs, &payload, &steps, len0, cap0, false, false);
                     clear_case();
                     k += 1;
                     if plen == 33 && si == 3 && k == 4321 {
@@ -1067,7 +1194,7 @@ fn c15(args: &Args) -> Report {
                     steps.extend(idx.iter().map(|&i| rsym(i)));
                     case_string(&mut cs, &prefix, &steps, false);
                     set_case(&cs);
-                    run_rex(&mut r, &cs, &payload, &steps, bufsize, false);
+                    run_rex(&mut r, &cs, &payload, &steps, bufsize, false, false);
                     clear_case();
                     k += 1;
                     if plen == 5 && bufsize == 4 && k == 777 {
@@ -1098,7 +1225,7 @@ fn c15(args: &Args) -> Report {
                     steps.extend(idx.iter().map(|&i| rsym(i)));
                     case_string(&mut cs, &prefix, &steps, false);
                     set_case(&cs);
-                    run_rts(&mut r, &cs, payload, &steps, &RMENU, old, spare, ident, false);
+                    run_rts(&mut r, &cs, payload, &steps, &RMENU, old, spare, ident, false, false);
                     clear_case();
                     k += 1;
                     if ti == 6 && si == 3 && k == 3000 {
@@ -1125,7 +1252,7 @@ fn c15(args: &Args) -> Report {
                 for (k, steps) in cut_scripts(payload.len(), max_cuts, true).iter().enumerate() {
                     case_string(&mut cs, &prefix, steps, false);
                     set_case(&cs);
-                    mask |= run_rts(&mut r, &cs, payload, steps, &all_sizes, old, spare, ident, false);
+                    mask |= run_rts(&mut r, &cs, payload, steps, &all_sizes, old, spare, ident, false, false);
                     clear_case();
                     if name == "unit" && si == 5 && k == 200 {
                         r.sample(case_json(&cs));
@@ -1161,7 +1288,7 @@ fn c15(args: &Args) -> Report {
                         for (k, steps) in scripts.iter().enumerate() {
                             case_string(&mut cs, &prefix, steps, false);
                             set_case(&cs);
-                            run_rts(&mut r, &cs, &payload, steps, &all_sizes, old, spare, ident, false);
+                            run_rts(&mut r, &cs, &payload, steps, &all_sizes, old, spare, ident, false, false);
                             clear_case();
                             if name == "unit" && pos == 4 && si == 1 && k == 3 {
                                 r.sample(case_json(&cs));
@@ -1219,7 +1346,7 @@ fn c15(args: &Args) -> Report {
                     }
                     case_string(&mut cs, &prefix, &steps, true);
                     set_case(&cs);
-                    run_write(&mut r, op, &cs, &payload, &steps, &*call, false);
+                    run_write(&mut r, op, &cs, &payload, &steps, &WMENU, &*call, false);
                     clear_case();
                     k += 1;
                     if first == N_WSYM && k == 500 && (fmt == Some(4) || (fmt.is_none() && payload.len() == 5)) {
@@ -1229,6 +1356,134 @@ fn c15(args: &Args) -> Report {
                 r
             }));
         }
+    }
+
+    // ---- size ladder (sizes far above the 32-byte thresholds): still a full grid, no sampling
+    // (a) readers: initial spare capacity x payload length over the ladder, every script of chunk sizes
+    //     {1,10,1000,4096,half the request,ALL} and EINTR, the reader then continuing with the last chunk size
+    for &plen in &ladder_lens() {
+        for len0 in [0usize, 5] {
+            for &spare in &LADDER {
+                let l = b.lad_read;
+                items.push(isolated(format!("ladder-read_to_end-p{plen}-l{len0}-s{spare}"), move || {
+                    let payload = ladder_payload(plen);
+                    let cap0 = len0 + spare;
+                    let mut r = Report::new();
+                    let prefix = case_prefix(json!({"op":"read_to_end","ladder":true,"payload_len":plen,"len0":len0,"cap0":cap0}));
+                    let mut cs = String::new();
+                    let mut steps: Vec<Step> = Vec::new();
+                    for_each_seq(N_LSYM, l, |idx| {
+                        steps.clear();
+                        steps.extend(idx.iter().map(|&i| lsym(i)));
+                        case_string(&mut cs, &prefix, &steps, false);
+                        set_case(&cs);
+                        run_rte(&mut r, &cs, &payload, &steps, len0, cap0, true, false);
+                        clear_case();
+                        if plen == 24581 && len0 == 0 && spare == 4096 && steps == [Step::Deliver(10), Step::Eintr] {
+                            r.sample(case_json(&cs));
+                        }
+                    });
+                    r
+                }));
+            }
+        }
+    }
+    for &plen in ladder_lens().iter().filter(|&&n| n > 0) {
+        for old in ["", OLD_STR] {
+            for &spare in &LADDER {
+                let l = b.lad_rts;
+                items.push(isolated(format!("ladder-read_to_string-p{plen}-o{}-s{spare}", old.len()), move || {
+                    let text = ladder_text(plen);
+                    let mut r = Report::new();
+                    let prefix = case_prefix(json!({"op":"read_to_string","ladder":true,"payload_len":plen,"old":old,"spare":spare}));
+                    let mut cs = String::new();
+                    let mut steps: Vec<Step> = Vec::new();
+                    for_each_seq(N_LSYM, l, |idx| {
+                        steps.clear();
+                        steps.extend(idx.iter().map(|&i| lsym(i)));
+                        case_string(&mut cs, &prefix, &steps, false);
+                        set_case(&cs);
+                        run_rts(&mut r, &cs, text.as_bytes(), &steps, &LMENU, old, spare, 0, true, false);
+                        clear_case();
+                    });
+                    r
+                }));
+            }
+        }
+    }
+    for &bufsize in &LADDER {
+        for plen in dedup_sorted(vec![bufsize.saturating_sub(1), bufsize, bufsize + 1, 100_000]) {
+            let l = b.lad_read;
+            items.push(isolated(format!("ladder-read_exact-p{plen}-b{bufsize}"), move || {
+                let payload = ladder_payload(plen);
+                let mut r = Report::new();
+                let prefix = case_prefix(json!({"op":"read_exact","ladder":true,"payload_len":plen,"bufsize":bufsize}));
+                let mut cs = String::new();
+                let mut steps: Vec<Step> = Vec::new();
+                for_each_seq(N_LSYM, l, |idx| {
+                    steps.clear();
+                    steps.extend(idx.iter().map(|&i| lsym(i)));
+                    case_string(&mut cs, &prefix, &steps, false);
+                    set_case(&cs);
+                    run_rex(&mut r, &cs, &payload, &steps, bufsize, true, false);
+                    clear_case();
+                });
+                r
+            }));
+        }
+    }
+    // (b) writers: every sequence of 1..=lad_pieces formatted pieces with lengths from PIECE_LENS in every format
+    //     shape, and write_all of the same lengths, through every script over {A1,A100,AALL,EINTR}
+    for n in 1..=b.lad_pieces {
+        for shape in 0..N_SHAPES {
+            if shape_literals(shape, n).is_none() {
+                continue;
+            }
+            for first in 0..PIECE_LENS.len() {
+                let l = b.lad_write;
+                items.push(isolated(format!("ladder-write_fmt-n{n}-shape{shape}-f{first}"), move || {
+                    let mut r = Report::new();
+                    let mut max_frags = 0usize;
+                    let mut lens = vec![0usize; n];
+                    // odometer over the remaining n-1 pieces
+                    for code in 0..PIECE_LENS.len().pow(n as u32 - 1) {
+                        lens[0] = PIECE_LENS[first];
+                        let mut c = code;
+                        for slot in lens.iter_mut().skip(1) {
+                            *slot = PIECE_LENS[c % PIECE_LENS.len()];
+                            c /= PIECE_LENS.len();
+                        }
+                        run_fmt_ladder_point(&mut r, shape, &lens, l, &mut max_frags);
+                    }
+                    if n == 2 && shape == 1 && first == 1 {
+                        r.sample(json!({"op":"write_fmt","ladder":true,"shape":1,"pieces":[1, 300],"script":"A1 I"}));
+                    }
+                    r.note(format!("ladderfrags:{max_frags}"));
+                    r
+                }));
+            }
+        }
+    }
+    {
+        let l = b.lad_write;
+        items.push(isolated("ladder-write_all", move || {
+            let mut r = Report::new();
+            let mut cs = String::new();
+            let mut steps: Vec<Step> = Vec::new();
+            for &plen in &PIECE_LENS {
+                let payload = ladder_payload(plen);
+                let prefix = case_prefix(json!({"op":"write_all","ladder":true,"payload_len":plen}));
+                for_each_seq(N_LWSYM, l, |idx| {
+                    steps.clear();
+                    steps.extend(idx.iter().map(|&i| lwsym(i)));
+                    case_string(&mut cs, &prefix, &steps, true);
+                    set_case(&cs);
+                    run_write(&mut r, "write_all", &cs, &payload, &steps, &LWMENU, &|w| w.write_all(&payload), false);
+                    clear_case();
+                });
+            }
+            r
+        }));
     }
 
     let n_items = items.len();
@@ -1251,6 +1506,22 @@ fn c15(args: &Args) -> Report {
         }
     }
 
+    let mut ladder_frags = 0usize;
+    r.notes.retain(|n| match n.strip_prefix("ladderfrags:") {
+        Some(x) => {
+            ladder_frags = ladder_frags.max(x.parse().unwrap_or(0));
+            false
+        }
+        None => true,
+    });
+    r.bound("ladder_write_fmt_max_fragments", ladder_frags);
+    r.bound("ladder_sizes", LADDER.to_vec());
+    r.bound("ladder_extra_payload_lens", LADDER_EXTRA_LENS.to_vec());
+    r.bound("ladder_piece_lens", PIECE_LENS.to_vec());
+    r.bound("ladder_script_len_read", b.lad_read);
+    r.bound("ladder_script_len_read_to_string", b.lad_rts);
+    r.bound("ladder_max_pieces", b.lad_pieces);
+    r.bound("ladder_script_len_write", b.lad_write);
     // number of fragments (= write calls of an all-accepting writer) of each format case
     let frags: Vec<usize> = fmt_cases()
         .iter()
@@ -1270,15 +1541,26 @@ fn c15(args: &Args) -> Report {
          the 10-byte text 'a\u{e9}\u{20ac}\u{1f600}' delivered in every composition into pieces and its 40-byte repetition with every set of <= {cl} cuts, with and without EINTR between pieces; \
          0xFF substituted at every position and truncation at every byte of the 10/33/40-byte texts x (every single cut + scripts of length <= {li}). \
          write_all (payload lengths {WA_LENS:?}) and write_fmt ({nf} format strings producing 0..{mf} separate write_all fragments, arguments opaque to the compiler): every script of length <= {lw} over {{A1,A2,A4,AALL,EINTR,Ok(0)*,EIO*}} (* sticky, last position only). \
-         After its script a reader delivers the rest then Ok(0); a writer accepts everything. Reference: plain concatenation of what the reader handed out / what was to be written. \
+         SIZE LADDER (same oracle): read_to_end with initial len {{0,5}} x spare capacity {LADDER:?} x payload lengths (the same + {LADDER_EXTRA_LENS:?}) x every script of length <= {ladr} over \
+         chunk sizes {{D1,D10,D1000,D4096,DHALF (half the request),DALL (= exactly the request)}} and EINTR, the reader then repeating the last scripted chunk size until the data ends; \
+         read_to_string likewise (multi-byte text, old in {{\"\",\"ab\u{20ac}\"}}, scripts <= {lads}); read_exact with buffer sizes from the ladder x payload lengths {{b-1,b,b+1,100000}}; \
+         write_fmt with every sequence of 1..={ladp} pieces of lengths {PIECE_LENS:?} (each piece its own letters) in 3 shapes (arguments only / a short literal before each argument / a 130-byte literal after the first argument), \
+         and write_all of those lengths, through every writer script of length <= {ladw} over {{A1,A100,AALL,EINTR}}. \
+         After its script a reader delivers the rest then Ok(0) (ladder: keeps its last chunk size); a writer accepts everything. Reference: plain concatenation of what the reader handed out / what was to be written. \
          A case counts as distinct when the helper consumed the whole script and no other script of the enumeration yields the same response sequence \
          (a delivery clipped by the buffer, an entry equal to the after-script behaviour, or unreached entries make a script a duplicate of another one); \
-         read_to_string cases are counted by (payload, initial string, response sequence).",
+         read_to_string cases are counted by (payload, initial string, response sequence); ladder cases are generated once per (state, script) and counted when \
+         every entry was consumed, every scripted delivery was honoured as written (not clipped by the request or the remaining data, HALF/ALL not coinciding with a smaller menu entry) \
+         and the last entry is not the chunk size the shorter script would repeat anyway.",
         lr = b.l_read,
         ls = b.l_rts,
         cl = b.cuts_long,
         li = b.l_rts_invalid,
         lw = b.l_write,
+        ladr = b.lad_read,
+        lads = b.lad_rts,
+        ladp = b.lad_pieces,
+        ladw = b.lad_write,
         nf = fmt_cases().len(),
         mf = frags.iter().max().copied().unwrap_or(0),
     );
@@ -1298,35 +1580,55 @@ fn c15(args: &Args) -> Report {
 
 fn replay(v: &Value, r: &mut Report) {
     let op = v["op"].as_str().unwrap_or("");
-    let payload = parse_shown(v["payload"].as_str().unwrap_or(""));
+    let ladder = v["ladder"].as_bool().unwrap_or(false);
+    let plen = v["payload_len"].as_u64().unwrap_or(0) as usize;
     let script = parse_script(v["script"].as_str().unwrap_or(""));
     let case = v.to_string();
     println!("replaying {case}");
+    // ladder cases carry the payload length only; the bytes come from the generator
+    let payload = if !ladder {
+        parse_shown(v["payload"].as_str().unwrap_or(""))
+    } else if op == "read_to_string" {
+        ladder_text(plen).into_bytes()
+    } else {
+        ladder_payload(plen)
+    };
     match op {
         "read_to_end" => {
             let len0 = v["len0"].as_u64().unwrap_or(0) as usize;
             let cap0 = v["cap0"].as_u64().unwrap_or(0) as usize;
-            run_rte(r, &case, &payload, &script, len0, cap0, true);
+            run_rte(r, &case, &payload, &script, len0, cap0, ladder, true);
         }
         "read_to_string" => {
             let old = v["old"].as_str().unwrap_or("").to_string();
             let spare = v["spare"].as_u64().unwrap_or(0) as usize;
-            run_rts(r, &case, &payload, &script, &RMENU, &old, spare, 0, true);
+            run_rts(r, &case, &payload, &script, &RMENU, &old, spare, 0, ladder, true);
         }
         "read_exact" => {
             let bufsize = v["bufsize"].as_u64().unwrap_or(0) as usize;
-            run_rex(r, &case, &payload, &script, bufsize, true);
+            run_rex(r, &case, &payload, &script, bufsize, ladder, true);
         }
         "write_all" => {
             let p = payload.clone();
-            run_write(r, "write_all", &case, &payload, &script, &move |w| w.write_all(&p), true);
+            let menu: &[usize] = if ladder { &LWMENU } else { &WMENU };
+            run_write(r, "write_all", &case, &payload, &script, menu, &move |w| w.write_all(&p), true);
+        }
+        "write_fmt" if ladder => {
+            let shape = v["shape"].as_u64().unwrap_or(0) as usize;
+            let lens: Vec<usize> = v["pieces"].as_array().map(|a| a.iter().map(|x| x.as_u64().unwrap_or(0) as usize).collect()).unwrap_or_default();
+            let strs: Vec<String> = lens.iter().enumerate().map(|(i, &n)| piece(i, n)).collect();
+            let p: Vec<&str> = strs.iter().map(|s| s.as_str()).collect();
+            let mut reference = Pieces::default();
+            let _ = ladder_fmt(shape, &p, Sink::Std(&mut reference));
+            println!("  {} non-empty fragments, {} bytes in all", reference.nonempty, reference.out.len());
+            run_write(r, "write_fmt", &case, reference.out.as_bytes(), &script, &LWMENU, &|w| ladder_fmt(shape, &p, Sink::Tiny(w)), true);
         }
         "write_fmt" => {
             let name = v["fmt"].as_str().unwrap_or("");
             let cases = fmt_cases();
             let f = cases.iter().find(|c| c.name == name).expect("unknown format case");
             let run = f.run;
-            run_write(r, "write_fmt", &case, f.expect.as_bytes(), &script, &move |w| run(w), true);
+            run_write(r, "write_fmt", &case, f.expect.as_bytes(), &script, &WMENU, &move |w| run(w), true);
         }
         _ => panic!("unknown op {op:?} in replay file"),
     }
